@@ -467,8 +467,17 @@ pub fn run_inputs(opts: &Opts, only: Option<Vec<Vec<u8>>>) -> Run {
             if let (None, Some(r), None) = (&o.output, &reference, &o.panic) {
                 // (a window above the decoder's configured limit is refused on purpose: C11)
                 let over_limit = o.err.as_deref().map(|e| e.starts_with("err windowOverLimit")).unwrap_or(false);
-                if o.what != "loop UptoBytes(4096)+collect" && r.len() < (1 << 20) - 4 && !over_limit {
-                    run.fail("C01", "rejects_frame_libzstd_accepts", format!("[{}] {} failed with {:?} on a frame libzstd decodes ({} bytes)", label, o.what, o.err, r.len()), replay.clone());
+                if o.what == "decode_blocks(All)+collect" && r.len() < (1 << 20) - 4 && !over_limit {
+                    if expected.is_some() {
+                        run.fail("C01", "rejects_valid_synthetic_frame", format!("[{}] {} failed with {:?} on a valid synthetic frame ({} bytes of content)", label, o.what, o.err, r.len()), replay.clone());
+                    } else if bytes.len() < 40_000 {
+                        // libzstd accepts some corrupted streams (it does not insist on exact consumption of every Huffman
+                        // stream, …), so it cannot be the referee here: the strict RFC Spec decides.  The request below
+                        // expects the Spec to reject too; if the Spec ACCEPTS, ruzstd rejects a valid frame.
+                        run.case(format!("spec frame {}", hex(bytes)), "err".into());
+                        run.cond_fail("C01", "rejects_frame_spec_accepts", format!("[{}] {} failed with {:?} on a frame that libzstd AND the RFC Spec decode ({} bytes)", label, o.what, o.err, r.len()), replay.clone());
+                        run.stat("libzstd_accepts_ruzstd_rejects_referred_to_spec", 1);
+                    }
                 }
             }
             if let (Some(out), Some(e)) = (&o.output, expected) {
